@@ -661,7 +661,11 @@ func c01Placement(presented string, resp *types.Response) (string, string) {
 	for _, a := range sim.ChildrenNS(d.Root(), sim.NSA, "Assertion") {
 		direct[a.SelectAttrValue("ID", "")] = true
 	}
-	hasEnc := len(sim.ChildrenNS(d.Root(), sim.NSA, "EncryptedAssertion")) > 0
+	nEnc := len(sim.ChildrenNS(d.Root(), sim.NSA, "EncryptedAssertion"))
+	hasEnc := nEnc > 0
+	if n := len(sim.ChildrenNS(d.Root(), sim.NSA, "Assertion")) + nEnc; n != len(resp.Assertions) {
+		return "carried-assertion-not-verified", fmt.Sprintf("the unverified Response carries %d assertion element(s) as direct children but %d verified assertion(s) were returned: some carried assertion was accepted without being individually verified", n, len(resp.Assertions))
+	}
 	for i := range resp.Assertions {
 		if !direct[resp.Assertions[i].ID] && !hasEnc {
 			return "assertion-not-direct-child-honoured", fmt.Sprintf("assertion %s was honoured although no Assertion with that ID is a direct child of the presented Response", resp.Assertions[i].ID)
